@@ -101,7 +101,7 @@ where
         let namespaces = format!("\"{}\" = {:?}", tns.abbreviation, tns.namespace);
         writeln!(
             writer,
-            "#[yaserde(prefix = \"{}\", namespaces = {{{}}}, rename = \"{}\")]",
+            "#[yaserde(prefix = \"{}\", namespaces = {{{}}}, rename = {:?})]",
             tns.abbreviation, namespaces, xml_name
         )?;
     }
@@ -164,7 +164,7 @@ where
             .join(", ");
         writeln!(
             writer,
-            "#[yaserde(prefix = \"{}\", namespaces = {{{}}}, rename = \"{}\")]",
+            "#[yaserde(prefix = \"{}\", namespaces = {{{}}}, rename = {:?})]",
             tns.abbreviation, namespaces, xml_name
         )?;
     }
